@@ -307,17 +307,15 @@ func canMerge(a, b *State) bool {
 	for n < len(a.pc) && n < len(b.pc) && a.pc[n] == b.pc[n] {
 		n++
 	}
+	// a few quantified facts on either side are fine; many (typically loop invariants) are not
+	q := 0
 	for _, t := range a.pc[n:] {
-		if strings.Contains(t.S, "(forall ") || strings.Contains(t.S, "(exists ") {
-			return false
-		}
+		q += strings.Count(t.S, "(forall ") + strings.Count(t.S, "(exists ")
 	}
 	for _, t := range b.pc[n:] {
-		if strings.Contains(t.S, "(forall ") || strings.Contains(t.S, "(exists ") {
-			return false
-		}
+		q += strings.Count(t.S, "(forall ") + strings.Count(t.S, "(exists ")
 	}
-	return true
+	return q <= 3
 }
 
 func deferSig(s *State) string {
